@@ -582,7 +582,7 @@ func (s *s3) checkAll(i int) {
 		return
 	}
 	if e.Property == "C05" {
-		checkServerIndexes(e, s.srv, db)
+		checkServerIndexes(e, s.srv, db, "C05.server-index")
 		if e.Stopped() {
 			return
 		}
